@@ -145,6 +145,7 @@ def _iter_snapshot(ctx, tr, where="iteration"):
             info = ps.pbinfo
             merits = []
             viols = []
+            vscales = []
             for k in range(m.npt):
                 # own merit value from the stored tables (no solver code,
                 # no user call): f + penalty * ||violation||_2
@@ -159,7 +160,14 @@ def _iter_snapshot(ctx, tr, where="iteration"):
                     mv += rec["penalty"] * float(np.linalg.norm(cv))
                 merits.append(mv)
                 viols.append(float(np.max(cv, initial=0.0)))
+                # magnitude of the terms the linear residuals are computed from (their rounding scale)
+                sc = 0.0
+                for a_, b_ in ((info["a_ub"], info["b_ub"]), (info["a_eq"], info["b_eq"])):
+                    if a_.shape[0]:
+                        sc = max(sc, float(np.max(np.abs(a_) @ np.abs(xk) + np.abs(b_))))
+                vscales.append(sc)
             rec["viols"] = viols
+            rec["vscales"] = vscales
             rec["merits"] = merits
             rec["npt"] = int(m.npt)
             rec["n"] = int(m.n)
